@@ -29,59 +29,7 @@ SWAP = {"px1": "px2", "px2": "px1", "cluster1": "cluster2", "cluster2": "cluster
         "upper_pixel": "lower_pixel", "lower_pixel": "upper_pixel"}
 
 
-class _EvUnk(Exception):
-    pass
-
-
-def _ev(e, env):
-    """Evaluate a boolean/comparison expression over an abstract valuation (names -> small values)."""
-    if isinstance(e, ast.Constant):
-        return e.value
-    if isinstance(e, ast.Name):
-        if e.id in env:
-            return env[e.id]
-        raise _EvUnk(f"name {e.id}")
-    if isinstance(e, ast.UnaryOp) and isinstance(e.op, ast.Not):
-        return not _ev(e.operand, env)
-    if isinstance(e, ast.BoolOp):
-        if isinstance(e.op, ast.And):
-            v = True
-            for x in e.values:
-                v = _ev(x, env)
-                if not v:
-                    return v
-            return v
-        v = False
-        for x in e.values:
-            v = _ev(x, env)
-            if v:
-                return v
-        return v
-    if isinstance(e, ast.IfExp):
-        return _ev(e.body, env) if _ev(e.test, env) else _ev(e.orelse, env)
-    if isinstance(e, ast.Compare):
-        left = _ev(e.left, env)
-        for op, r in zip(e.ops, e.comparators):
-            right = _ev(r, env)
-            if isinstance(op, ast.Eq):
-                ok = left == right
-            elif isinstance(op, ast.NotEq):
-                ok = left != right
-            elif isinstance(op, ast.Is):
-                ok = left is right
-            elif isinstance(op, ast.IsNot):
-                ok = left is not right
-            elif isinstance(op, (ast.Lt, ast.LtE, ast.Gt, ast.GtE)) and isinstance(left, (int, bool)) and isinstance(right, (int, bool)):
-                ok = {ast.Lt: left < right, ast.LtE: left <= right, ast.Gt: left > right, ast.GtE: left >= right}[type(op)]
-            else:
-                raise _EvUnk(f"operator {type(op).__name__}")
-            if not ok:
-                return False
-            left = right
-        return True
-    if isinstance(e, ast.Call) and isinstance(e.func, ast.Name) and e.func.id == "bool" and len(e.args) == 1:
-        return bool(_ev(e.args[0], env))
-    raise _EvUnk(ast.dump(e)[:60])
+from tiv.absdom import EvUnk as _EvUnk, ev as _ev
 
 
 def rels(e):
